@@ -187,12 +187,20 @@ class Sweep(Part):
             produced.extend([list(map(float, v)) for v in vs])
             return vs
         g.generate = generate
+        npre = 0
+        if rng.random() < 0.35:
+            # the problem already holds designs of its own (a registered candidate not evaluated yet, a point of an earlier run):
+            # the sweep evaluates exactly the generator's designs
+            from artap.individual import Individual
+            for _ in range(rng.randint(1, 2)):
+                rec.problem.individuals.append(Individual([round(rng.uniform(-5, 5), 5) for _ in range(dim)]))
+                npre += 1
         alg = SweepAlgorithm(rec.problem, generator=g)
         alg.options['verbose_level'] = 0
         alg.run()
         calls = [e["v"] for e in rec.events if e["ev"] == "call"]
         gen = [rec.vkey(v) for v in produced]
-        recorded = [rec.vkey(i.vector) for i in rec.problem.individuals]
+        recorded = [rec.vkey(i.vector) for i in rec.problem.individuals[npre:]]
         return [{"ev": "sweep", "gen": gen, "calls": calls, "recorded": recorded}]
 
     def key(self, case, trace, fail):
